@@ -171,6 +171,8 @@ def impl_from_body(cls, body):
         cmd = cls.from_frame(frame_with_body(cls, body))
     except (ValueError, KeyError):
         return "R"
+    except Exception as e:  # noqa  anything else is not a rejection the callers of from_frame handle
+        return "X " + type(e).__name__
     return ("P " if cmd._partial else "A ") + assignment_text(cls, cmd)
 
 
